@@ -4,6 +4,7 @@ import (
 	"fmt"
 	"reflect"
 	"runtime/debug"
+	"sort"
 	"strings"
 	"testing"
 
@@ -37,6 +38,8 @@ type VisitorSpec struct {
 }
 
 type VisitCase struct {
+	// KeyDrop: "Kind.Key" child slots left out of the key map handed to Visit (empty = the default key map, nil)
+	KeyDrop  []string      `json:"keyDrop,omitempty"`
 	Text     string        `json:"text"`
 	Visitors []VisitorSpec `json:"visitors"` // 1 = plain Visit; >1 = VisitInParallel
 	TypeInfo bool          `json:"typeInfo"` // wrap in VisitWithTypeInfo over the kitchen schema
@@ -318,6 +321,29 @@ func c14Oracle(c *VisitCase) (msg string, class string) {
 		types = ref.TrackTypes(kitchenModel(), root)
 		ti = graphql.NewTypeInfo(&graphql.TypeInfoConfig{Schema: &b.Schema})
 	}
+	// a custom key map: the default one without the dropped slots (order kept)
+	var keyMap visitor.KeyMap
+	var allowed map[string]map[string]bool
+	if len(c.KeyDrop) > 0 && ti == nil {
+		drop := map[string]bool{}
+		for _, d := range c.KeyDrop {
+			drop[d] = true
+		}
+		keyMap = visitor.KeyMap{}
+		allowed = map[string]map[string]bool{}
+		for kind, keys := range visitor.QueryDocumentKeys {
+			allowed[kind] = map[string]bool{}
+			var kept []string
+			for _, k := range keys {
+				if !drop[kind+"."+k] {
+					kept = append(kept, k)
+					allowed[kind][k] = true
+				}
+			}
+			keyMap[kind] = kept
+		}
+	}
+	useKeyMap := keyMap
 	run := func() (string, [][]obsEvent) {
 		obs := make([][]obsEvent, len(c.Visitors))
 		var opts []*visitor.VisitorOptions
@@ -341,7 +367,7 @@ func c14Oracle(c *VisitCase) (msg string, class string) {
 					pan = fmt.Sprint(r) + "\n" + string(debug.Stack())
 				}
 			}()
-			visitor.Visit(doc, top, nil)
+			visitor.Visit(doc, top, useKeyMap)
 		}()
 		if pan != "" {
 			return "traversal panicked: " + pan, nil
@@ -357,9 +383,12 @@ func c14Oracle(c *VisitCase) (msg string, class string) {
 	}
 	for i := range c.Visitors {
 		spec := &c.Visitors[i]
-		want := syn.RefWalk(root, func(index int, phase string, n *syn.Node) string { return spec.action(index, phase) }, spec.observes)
+		want := syn.RefWalkKeys(root, func(index int, phase string, n *syn.Node) string { return spec.action(index, phase) }, spec.observes, allowed)
 		if d := compareEvents(want, obs[i], order, types); d != "" {
 			who := "visitor"
+			if allowed != nil {
+				who = fmt.Sprintf("visitor under a key map without %v", c.KeyDrop)
+			}
 			if len(c.Visitors) > 1 {
 				who = fmt.Sprintf("parallel visitor %d of %d", i, len(c.Visitors))
 			}
@@ -368,6 +397,22 @@ func c14Oracle(c *VisitCase) (msg string, class string) {
 	}
 	if after := syn.FromLib(doc).Dump(true); after != before {
 		return "a traversal that requested no edits changed the tree", "visited"
+	}
+	if allowed != nil {
+		// and the default key map again, after the custom one was used in this process
+		useKeyMap = nil
+		m3, obs3 := run()
+		if m3 != "" {
+			return "traversal with the default key map after one with a custom key map: " + m3, "visited"
+		}
+		for i := range c.Visitors {
+			spec := &c.Visitors[i]
+			want := syn.RefWalk(root, func(index int, phase string, n *syn.Node) string { return spec.action(index, phase) }, spec.observes)
+			if d := compareEvents(want, obs3[i], order, nil); d != "" {
+				return fmt.Sprintf("traversal with the default key map after one with a custom key map (without %v): %s", c.KeyDrop, d), "visited"
+			}
+		}
+		return "", "visited"
 	}
 	if ti == nil {
 		m2, obs2 := run()
@@ -450,8 +495,23 @@ func TestC14(t *testing.T) {
 			}
 			c.Visitors = append(c.Visitors, spec)
 		}
+		if !c.TypeInfo && gen.Chance(rt, 30, "customKeyMap") {
+			var slots []string
+			for kind, keys := range visitor.QueryDocumentKeys {
+				for _, k := range keys {
+					slots = append(slots, kind+"."+k)
+				}
+			}
+			sort.Strings(slots)
+			for i, n := 0, gen.Intn(rt, 1, 6, "nDropped"); i < n; i++ {
+				c.KeyDrop = append(c.KeyDrop, slots[gen.Uniform(rt, len(slots), "droppedSlot")])
+			}
+		}
 		msg, class := c14Oracle(c)
 		stats.R.Class(class)
+		if class == "visited" && len(c.KeyDrop) > 0 {
+			stats.R.Class("custom_key_map")
+		}
 		if class == "visited" {
 			stats.R.Class(fmt.Sprintf("visitors_%d", nVis))
 			if c.TypeInfo {
